@@ -68,6 +68,25 @@ func ZZ_C13_podTemplate() {
 		ObjectMeta: metav1.ObjectMeta{Name: "foo", Namespace: "ns", UID: "uid-foo", Labels: map[string]string{"team": "x"}},
 		Spec:       datadoghqv1alpha1.ExtendedDaemonSetSpec{Template: zzTpl(cur)},
 	}
+	// whatever the ExtendedDaemonSet is going through (canary running, paused, just failed, rolling
+	// update paused) the PodTemplate follows spec.template: "edits during a canary" included
+	switch nondet.String("eds.phase", "blank", "canary", "canary-paused", "canary-failed", "rolling-update-paused") {
+	case "canary":
+		ds.Spec.Strategy.Canary = &datadoghqv1alpha1.ExtendedDaemonSetSpecStrategyCanary{}
+		ds.Status = datadoghqv1alpha1.ExtendedDaemonSetStatus{ActiveReplicaSet: "foo-a", State: datadoghqv1alpha1.ExtendedDaemonSetStatusStateCanary,
+			Canary: &datadoghqv1alpha1.ExtendedDaemonSetStatusCanary{ReplicaSet: "foo-b", Nodes: []string{"node0"}}}
+	case "canary-paused":
+		ds.Spec.Strategy.Canary = &datadoghqv1alpha1.ExtendedDaemonSetSpecStrategyCanary{}
+		ds.Annotations = map[string]string{datadoghqv1alpha1.ExtendedDaemonSetCanaryPausedAnnotationKey: "true"}
+		ds.Status = datadoghqv1alpha1.ExtendedDaemonSetStatus{ActiveReplicaSet: "foo-a", State: datadoghqv1alpha1.ExtendedDaemonSetStatusStateCanaryPaused,
+			Canary: &datadoghqv1alpha1.ExtendedDaemonSetStatusCanary{ReplicaSet: "foo-b", Nodes: []string{"node0"}}}
+	case "canary-failed":
+		ds.Spec.Strategy.Canary = &datadoghqv1alpha1.ExtendedDaemonSetSpecStrategyCanary{}
+		ds.Status = datadoghqv1alpha1.ExtendedDaemonSetStatus{ActiveReplicaSet: "foo-a", State: datadoghqv1alpha1.ExtendedDaemonSetStatusStateCanaryFailed}
+	case "rolling-update-paused":
+		ds.Annotations = map[string]string{datadoghqv1alpha1.ExtendedDaemonSetRollingUpdatePausedAnnotationKey: "true"}
+		ds.Status = datadoghqv1alpha1.ExtendedDaemonSetStatus{ActiveReplicaSet: "foo-a", State: datadoghqv1alpha1.ExtendedDaemonSetStatusStateRollingUpdatePaused}
+	}
 	c := fakeapi.New()
 	c.EDS = append(c.EDS, ds)
 	// an unrelated PodTemplate and one of the same name in another namespace must stay untouched
